@@ -17,16 +17,21 @@ def bounds(tier):
             'constructors': ['from_strings'] + (['from_files', 'from_s3'] if tier == 'thorough' else ['(files, s3: subset)'])}
 
 
-def mk(n_rc, n_rd, n_other, allow, opt, source='string', order=None, T=60, with_replace=False):
+def mk(n_rc, n_rd, n_other, allow, opt, source='string', order=None, T=60, with_replace=False, same_mid=False,
+       blank_roid=None):
     n = n_rc + n_rd + n_other
     P = {'n_rc': n_rc, 'n_rd': n_rd, 'n_other': n_other, 'allow': allow, 'opt': opt, 'source': source, 'order': order,
-         'with_replace': with_replace}
+         'with_replace': with_replace, 'same_mid': same_mid, 'blank_roid': blank_roid}
     sym = [('r%d' % i, 'str') for i in range(n)]
     pre = str_pre([s for s, _ in sym])
     cid = 'C11/rc%d-rd%d-other%d/%s/%s/%s' % (n_rc, n_rd, n_other, 'allow-incomplete' if allow else 'complete-only',
                                              '-O' if opt else 'default', source)
     if with_replace:
         cid += '/with-roReplace'
+    if same_mid:
+        cid += '/id-of-roCreate-repeated'
+    if blank_roid is not None:
+        cid += '/blank-roID-at-%d' % blank_roid
     if order:
         cid += '/order-' + ''.join(map(str, order))
     return Cell(pid=PID, cid=cid, harness='h_collect:accept_cell', params=P, sym=sym, pre=pre, stubs=(),
@@ -46,6 +51,15 @@ def cells(tier):
         for (n_rc, n_rd, n_other) in ((1, 1, 1), (0, 1, 1), (2, 1, 0), (1, 2, 0), (1, 0, 2), (0, 0, 0)):
             for opt in (False, True):
                 out.append(mk(n_rc, n_rd, n_other, False, opt, source=src, T=T))
+        # allow_incomplete is honoured by every constructor
+        for (n_rc, n_rd, n_other) in ((1, 0, 1), (1, 0, 0), (1, 2, 0), (0, 0, 1)):
+            out.append(mk(n_rc, n_rd, n_other, True, False, source=src, T=T))
+    # a message repeating the roCreate's message ID stays in the collection; a blank roID is not "the same ID"
+    for (n_rc, n_rd, n_other) in ((1, 1, 1), (1, 1, 0), (1, 0, 2)):
+        for allow in (False, True):
+            out.append(mk(n_rc, n_rd, n_other, allow, False, T=T, same_mid=True))
+            for b in range(n_rc + n_rd + n_other):
+                out.append(mk(n_rc, n_rd, n_other, allow, b % 2 == 1, T=T, blank_roid=b))
     # a roReplace is a message like any other (its class derives from RunningOrder): it is neither a roCreate
     # nor removed from the readers
     for (n_rc, n_rd, n_other) in ((1, 1, 1), (0, 1, 1), (1, 0, 2), (0, 0, 1), (2, 1, 1)):
